@@ -227,3 +227,5 @@ def run(ck):
     ck.run_rule("C02.R7", "linked files are placed at base + lengths of the files before them", 3, c02.rule_R7)
     from . import c18
     ck.run_rule("G5.memo", "the base is the value of the expression in THIS source: parse trees and values are not memoised across assemblies", 40, c18.rule_memo)
+    from . import c16
+    ck.run_rule("C16.R2", "'. = X' inside a repeated body is checked against each copy's own location counter (every copy is compiled)", 4, c16.rule_R2)
